@@ -110,6 +110,26 @@ for k, v in EXTRA11.items():
     if k in P:
         P[k]["text"] += v
 
+# round 12 (DESIGN.md 8.6)
+EXTRA12 = {
+ "C02": " R10.1/R10.3 (own writer lists) and R05.10 (message identity) are obligations here.",
+ "C04": " Encoder counters are balanced on every path (R04.7); R02.8, R09.2 and R05.9 are obligations here.",
+ "C05": " Encoder counters are balanced on every path (R05.7); R02.8 and R09.2 are obligations here.",
+ "C06": " R02.2/R13.1/R13.5 (every destination gets the record as formatted), R16.2 and R05.9 are obligations here.",
+ "C07": " R05.9 (de-duplication by key equality only) is an obligation here.",
+ "C09": " Encoder counters are balanced on every path (R09.1).",
+ "C10": " Lookup by name is by equality only (R10.5).",
+ "C13": " The failure region writes to no process-level device (R13.2).",
+ "C14": " R02.1/R02.3 (one emission, on the regular path that runs the caller printer) are obligations here.",
+ "C15": " WriteThru hands the printer the record's own list or its plain copy (R15.3).",
+ "C16": " SetTimeFormat tests a candidate layout for emptiness only (R16.4).",
+ "C17": " A value in use is refused: no success return on the hit edge of the value test (R17.3).",
+ "C20": " Package-level tables of the duration helpers are indexed inside their bounds, non-negativity included (R20.1).",
+}
+for k, v in EXTRA12.items():
+    if k in P:
+        P[k]["text"] += v
+
 checks, na = [], []
 ids = [json.loads(l)["id"] for l in open(os.path.join(V, "properties.jsonl"))]
 for pid in ids:
